@@ -149,6 +149,63 @@ def _check_exit(case):
     return None
 
 
+BLOCKS = [
+    # (docformat, docstring body lines, message fragment, text of the line that must be named or None = any docstring line)
+    ('restructuredtext', ['Summary line.', '', ':Parameters:', '    nosuch : int', '        The description.', '    a : int', '        ok'],
+     'Documented parameter "nosuch" does not exist', 'nosuch : int'),
+    ('restructuredtext', ['Summary line.', '', ':Parameters:', '    - `a`: ok', '    - `nosuch`: The', '      description.'],
+     'Documented parameter "nosuch" does not exist', '`nosuch`: The'),
+    ('restructuredtext', ['Summary line.', '', ':param a: ok', ':param nosuch: The', '    description.'],
+     'Documented parameter "nosuch" does not exist', ':param nosuch: The'),
+    ('epytext', ['Summary line.', '', '@param a: ok', '@param nosuch: The', '    description.'],
+     'Documented parameter "nosuch" does not exist', '@param nosuch: The'),
+    ('epytext', ['Summary line.', '', 'A paragraph that goes', 'on and mentions L{no.such.thing} on', 'its third line.'],
+     'Cannot find link target', 'A paragraph that goes'),
+    ('restructuredtext', ['Summary line.', '', '- item one', '- item two mentions', '  `no.such.thing` here'],
+     'Cannot find link target', '- item two mentions'),
+    ('google', ['Summary line.', '', 'Args:', '    a: ok', '    nosuch: The description.'], 'Documented parameter "nosuch" does not exist', None),
+    ('numpy', ['Summary line.', '', 'Parameters', '----------', 'a : int', '    ok', 'nosuch : int', '    The description.'],
+     'Documented parameter "nosuch" does not exist', None),
+]
+
+
+def _block_cases(tier, seed):
+    for b in range(len(BLOCKS)):
+        for k in (0, 3):
+            for kind in ('function', 'method'):
+                yield {'block': b, 'k': k, 'kind': kind}
+
+
+def _check_block(case):
+    fmt, lines, frag, marker = BLOCKS[case['block']]
+    ind = '    ' if case['kind'] == 'function' else '        '
+    body = ('\n' + ind).join(lines)
+    head = 'def f(a):\n' if case['kind'] == 'function' else 'class C:\n    def f(self, a):\n'
+    src = '\n' * case['k'] + head + ind + '"""' + body + '\n' + ind + '"""\n'
+    rc, out = _run_project(src, fmt)
+    msgs = [l for l in out.splitlines() if frag in l]
+    if not msgs:
+        return {'observed': f'no message containing {frag!r}', 'required': 'the problem is reported', 'class': f'block-missing:{case["block"]}'}
+    m = re.match(r'(.*?):(\d+|\?\?\?): ', msgs[0])
+    got = m.group(2) if m else None
+    first = _line_of(src, lines[0])
+    last = first + len(lines) - 1
+    if marker is not None:
+        want = _line_of(src, marker)
+        # for cross-references pydoctor may name the exact line of the reference inside the paragraph / list item
+        # (deliberate, more precise): any line from the first line of the construct to the line holding the problem
+        hold = _line_of(src, 'no.such.thing') if 'link target' in frag else None
+        if hold is not None and got is not None and got.isdigit() and want <= int(got) <= hold:
+            return None
+        if got != str(want):
+            return {'observed': f'{fmt}: {frag!r} reported on line {got}', 'required': f'line {want} (first line of the construct: {marker!r})',
+                    'class': f'block-line:{case["block"]}'}
+    elif got is None or not got.isdigit() or not first <= int(got) <= last + 1:
+        return {'observed': f'{fmt}: {frag!r} reported on line {got}', 'required': f'a line of that docstring ({first}..{last})',
+                'class': f'block-range:{case["block"]}'}
+    return None
+
+
 HARNESS = {
     f'{U}:extract_docstring_linenum': {'cases': _lin_cases, 'check': _check_lin,
         'covers': [f'{U}:extract_docstring', f'{M}:Documentable.setDocstring'],
@@ -158,5 +215,7 @@ HARNESS = {
                    'pydoctor/epydoc/markup/__init__.py:ParseError.descr', f'{M}:System.msg', 'lemma.shift_by_k'],
         'budget_s': {'quick': 90, 'thorough': 900},
         'bound': '2 formats x 3 planted problems x 5 layouts x 4 kinds x 2 (4) vertical offsets, each a real pydoctor run'},
+    'pydoctor/epydoc/markup/restructuredtext.py:_SplitFieldsTranslator': {'cases': _block_cases, 'check': _check_block,
+        'bound': '8 multi-line constructs (consolidated fields as definition/bullet lists, :param:/@param fields, paragraphs, list items, google/numpy sections) x 2 offsets x {function, method}'},
     f'{D}:main': {'cases': _exit_cases, 'check': _check_exit, 'bound': '4 problem kinds x {-W, no -W}, real runs'},
 }
